@@ -96,6 +96,8 @@ func main() {
 		cmdFirst1(os.Args[2:])
 	case "firstall":
 		cmdFirstAll(os.Args[2:])
+	case "vol1":
+		cmdVol1(os.Args[2:])
 	case "play":
 		cmdPlay(os.Args[2:])
 	case "sweep16":
